@@ -4,13 +4,8 @@ extern "C" void proof_init()       { body_init(); }
 extern "C" void proof_exit_enter() { body_exit_enter(); }
 extern "C" void proof_reset()      { body_reset(); }
 extern "C" void proof_cfg_count()  { VASSERT(C01, cfg_count_rec(0) == VM_NCFG, "the case split over active configurations is exhaustive: the declaration has exactly VM_NCFG of them"); }
-#define E_IMM(K, D) extern "C" void step_imm_k##K##_d##D() { body_immediate(K, D); }
-#define E_IMM_ALLK(D) E_IMM(0, D) E_IMM(1, D) E_IMM(2, D)
-#define E_UPD(CF, IS, K, D) extern "C" void step_upd_c##CF##_i##IS##_k##K##_d##D() { body_update(CF, IS, K, D); }
-#define E_UPD_NONE(CF) extern "C" void step_upd_c##CF##_none() { body_update(CF, -1, 0, 0); }
-#define E_Q2(K1, D1, K2, D2) extern "C" void step_q2_k##K1##_d##D1##_k##K2##_d##D2() { body_queued2(K1, D1, K2, D2); }
-// destinations 1..VM_NS-1 (expanded by hand per machine size)
-#if VM_NS == 6
-E_IMM_ALLK(1) E_IMM_ALLK(2) E_IMM_ALLK(3) E_IMM_ALLK(4) E_IMM_ALLK(5)
-#endif
-#include "tier_c/entries_gen.hpp"
+// case keys are linked in as constants (tools/driver.py compiles a key file per job): ck[0..7]
+extern "C" { extern const int ck0, ck1, ck2, ck3, ck4, ck5, ck6, ck7; }
+extern "C" void step_immediate() { body_immediate(ck0, ck1); }                 // kind, destination
+extern "C" void step_update()    { body_update((unsigned) ck0, ck1, ck2, ck3); } // configuration, issuer (-1 none), kind, destination
+extern "C" void step_queued2()   { body_queued2(ck0, ck1, ck2, ck3); }          // kind1, dest1, kind2, dest2
